@@ -86,6 +86,8 @@ mod permissions;
 mod test_utils;
 mod validation;
 mod welcomes;
+#[cfg(feature = "verif-hooks")]
+pub mod verif_hooks;
 
 pub use self::encryption::EncryptionConfig;
 use self::error::Error;
@@ -454,6 +456,8 @@ impl MdkSqliteStorage {
     where
         F: FnOnce(&Connection) -> T,
     {
+        #[cfg(feature = "verif-hooks")]
+        crate::verif_hooks::tick("with_connection");
         let conn = self.connection.lock().unwrap();
         f(&conn)
     }
@@ -471,8 +475,12 @@ impl MdkSqliteStorage {
             .duration_since(std::time::UNIX_EPOCH)
             .map_err(|e| Error::Database(format!("Time error: {}", e)))?
             .as_secs() as i64;
+        #[cfg(feature = "verif-hooks")]
+        let now = crate::verif_hooks::snapshot_now(now);
 
         // Begin transaction for atomicity
+        #[cfg(feature = "verif-hooks")]
+        crate::verif_hooks::tick("snapshot");
         conn.execute("BEGIN IMMEDIATE", [])
             .map_err(|e| Error::Database(e.to_string()))?;
 
@@ -488,6 +496,8 @@ impl MdkSqliteStorage {
 
             // Snapshot all 7 tables (4 OpenMLS + 3 MDK)
             // OpenMLS tables use MlsCodec-serialized group_id as their key
+            #[cfg(feature = "verif-hooks")]
+            crate::verif_hooks::tick("snapshot");
             Self::snapshot_openmls_group_data(
                 &conn,
                 &mut insert_stmt,
@@ -496,6 +506,8 @@ impl MdkSqliteStorage {
                 &mls_group_id_bytes,
                 now,
             )?;
+            #[cfg(feature = "verif-hooks")]
+            crate::verif_hooks::tick("snapshot");
             Self::snapshot_openmls_proposals(
                 &conn,
                 &mut insert_stmt,
@@ -504,6 +516,8 @@ impl MdkSqliteStorage {
                 &mls_group_id_bytes,
                 now,
             )?;
+            #[cfg(feature = "verif-hooks")]
+            crate::verif_hooks::tick("snapshot");
             Self::snapshot_openmls_own_leaf_nodes(
                 &conn,
                 &mut insert_stmt,
@@ -512,6 +526,8 @@ impl MdkSqliteStorage {
                 &mls_group_id_bytes,
                 now,
             )?;
+            #[cfg(feature = "verif-hooks")]
+            crate::verif_hooks::tick("snapshot");
             Self::snapshot_openmls_epoch_key_pairs(
                 &conn,
                 &mut insert_stmt,
@@ -521,8 +537,14 @@ impl MdkSqliteStorage {
                 now,
             )?;
             // MDK tables use raw bytes for mls_group_id
+            #[cfg(feature = "verif-hooks")]
+            crate::verif_hooks::tick("snapshot");
             Self::snapshot_groups_table(&conn, &mut insert_stmt, name, group_id_bytes, now)?;
+            #[cfg(feature = "verif-hooks")]
+            crate::verif_hooks::tick("snapshot");
             Self::snapshot_group_relays(&conn, &mut insert_stmt, name, group_id_bytes, now)?;
+            #[cfg(feature = "verif-hooks")]
+            crate::verif_hooks::tick("snapshot");
             Self::snapshot_group_exporter_secrets(
                 &conn,
                 &mut insert_stmt,
@@ -536,6 +558,8 @@ impl MdkSqliteStorage {
 
         match result {
             Ok(()) => {
+                #[cfg(feature = "verif-hooks")]
+                crate::verif_hooks::tick("snapshot");
                 conn.execute("COMMIT", [])
                     .map_err(|e| Error::Database(e.to_string()))?;
                 Ok(())
@@ -927,30 +951,40 @@ impl MdkSqliteStorage {
         };
 
         // Begin transaction for atomicity - critical to prevent data loss on failure
+        #[cfg(feature = "verif-hooks")]
+        crate::verif_hooks::tick("restore");
         conn.execute("BEGIN IMMEDIATE", [])
             .map_err(|e| Error::Database(e.to_string()))?;
 
         let result = (|| -> Result<(), Error> {
             // 2. Delete current rows for this group from all 7 tables
             // OpenMLS tables use MlsCodec-serialized group_id as their key
+            #[cfg(feature = "verif-hooks")]
+            crate::verif_hooks::tick("restore");
             conn.execute(
                 "DELETE FROM openmls_group_data WHERE group_id = ?",
                 [&mls_group_id_bytes],
             )
             .map_err(|e| Error::Database(e.to_string()))?;
 
+            #[cfg(feature = "verif-hooks")]
+            crate::verif_hooks::tick("restore");
             conn.execute(
                 "DELETE FROM openmls_proposals WHERE group_id = ?",
                 [&mls_group_id_bytes],
             )
             .map_err(|e| Error::Database(e.to_string()))?;
 
+            #[cfg(feature = "verif-hooks")]
+            crate::verif_hooks::tick("restore");
             conn.execute(
                 "DELETE FROM openmls_own_leaf_nodes WHERE group_id = ?",
                 [&mls_group_id_bytes],
             )
             .map_err(|e| Error::Database(e.to_string()))?;
 
+            #[cfg(feature = "verif-hooks")]
+            crate::verif_hooks::tick("restore");
             conn.execute(
                 "DELETE FROM openmls_epoch_key_pairs WHERE group_id = ?",
                 [&mls_group_id_bytes],
@@ -959,18 +993,24 @@ impl MdkSqliteStorage {
 
             // For MDK tables, we need to disable foreign key checks temporarily
             // or delete in the right order to avoid FK violations
+            #[cfg(feature = "verif-hooks")]
+            crate::verif_hooks::tick("restore");
             conn.execute(
                 "DELETE FROM group_exporter_secrets WHERE mls_group_id = ?",
                 [group_id_bytes],
             )
             .map_err(|e| Error::Database(e.to_string()))?;
 
+            #[cfg(feature = "verif-hooks")]
+            crate::verif_hooks::tick("restore");
             conn.execute(
                 "DELETE FROM group_relays WHERE mls_group_id = ?",
                 [group_id_bytes],
             )
             .map_err(|e| Error::Database(e.to_string()))?;
 
+            #[cfg(feature = "verif-hooks")]
+            crate::verif_hooks::tick("restore");
             conn.execute(
                 "DELETE FROM groups WHERE mls_group_id = ?",
                 [group_id_bytes],
@@ -1020,6 +1060,8 @@ impl MdkSqliteStorage {
                     Option<Vec<u8>>,
                     i64,
                 ) = serde_json::from_slice(row_data).map_err(|e| Error::Database(e.to_string()))?;
+                #[cfg(feature = "verif-hooks")]
+                crate::verif_hooks::tick("restore");
                 conn.execute(
                     "INSERT INTO groups (mls_group_id, nostr_group_id, name, description, admin_pubkeys,
                                         last_message_id, last_message_at, last_message_processed_at, epoch, state,
@@ -1052,6 +1094,8 @@ impl MdkSqliteStorage {
                         let (gid, data_type): (Vec<u8>, String) =
                             serde_json::from_slice(row_key)
                                 .map_err(|e| Error::Database(e.to_string()))?;
+                        #[cfg(feature = "verif-hooks")]
+                        crate::verif_hooks::tick("restore");
                         conn.execute(
                             "INSERT INTO openmls_group_data (provider_version, group_id, data_type, group_data)
                              VALUES (1, ?, ?, ?)",
@@ -1063,6 +1107,8 @@ impl MdkSqliteStorage {
                         let (gid, proposal_ref): (Vec<u8>, Vec<u8>) =
                             serde_json::from_slice(row_key)
                                 .map_err(|e| Error::Database(e.to_string()))?;
+                        #[cfg(feature = "verif-hooks")]
+                        crate::verif_hooks::tick("restore");
                         conn.execute(
                             "INSERT INTO openmls_proposals (provider_version, group_id, proposal_ref, proposal)
                              VALUES (1, ?, ?, ?)",
@@ -1073,6 +1119,8 @@ impl MdkSqliteStorage {
                     "openmls_own_leaf_nodes" => {
                         let (gid, leaf_node): (Vec<u8>, Vec<u8>) = serde_json::from_slice(row_data)
                             .map_err(|e| Error::Database(e.to_string()))?;
+                        #[cfg(feature = "verif-hooks")]
+                        crate::verif_hooks::tick("restore");
                         conn.execute(
                             "INSERT INTO openmls_own_leaf_nodes (provider_version, group_id, leaf_node)
                              VALUES (1, ?, ?)",
@@ -1084,6 +1132,8 @@ impl MdkSqliteStorage {
                         let (gid, epoch_id, leaf_index): (Vec<u8>, Vec<u8>, i64) =
                             serde_json::from_slice(row_key)
                                 .map_err(|e| Error::Database(e.to_string()))?;
+                        #[cfg(feature = "verif-hooks")]
+                        crate::verif_hooks::tick("restore");
                         conn.execute(
                             "INSERT INTO openmls_epoch_key_pairs (provider_version, group_id, epoch_id, leaf_index, key_pairs)
                              VALUES (1, ?, ?, ?, ?)",
@@ -1098,6 +1148,8 @@ impl MdkSqliteStorage {
                         let (mls_group_id, relay_url): (Vec<u8>, String) =
                             serde_json::from_slice(row_data)
                                 .map_err(|e| Error::Database(e.to_string()))?;
+                        #[cfg(feature = "verif-hooks")]
+                        crate::verif_hooks::tick("restore");
                         conn.execute(
                             "INSERT INTO group_relays (mls_group_id, relay_url) VALUES (?, ?)",
                             rusqlite::params![mls_group_id, relay_url],
@@ -1107,6 +1159,8 @@ impl MdkSqliteStorage {
                     "group_exporter_secrets" => {
                         let (mls_group_id, epoch): (Vec<u8>, i64) = serde_json::from_slice(row_key)
                             .map_err(|e| Error::Database(e.to_string()))?;
+                        #[cfg(feature = "verif-hooks")]
+                        crate::verif_hooks::tick("restore");
                         conn.execute(
                             "INSERT INTO group_exporter_secrets (mls_group_id, epoch, secret) VALUES (?, ?, ?)",
                             rusqlite::params![mls_group_id, epoch, row_data],
@@ -1120,6 +1174,8 @@ impl MdkSqliteStorage {
             }
 
             // 4. Delete the consumed snapshot (may be no-op if CASCADE already deleted them)
+            #[cfg(feature = "verif-hooks")]
+            crate::verif_hooks::tick("restore");
             conn.execute(
                 "DELETE FROM group_state_snapshots WHERE snapshot_name = ? AND group_id = ?",
                 rusqlite::params![name, group_id_bytes],
@@ -1129,6 +1185,8 @@ impl MdkSqliteStorage {
             // 5. Re-insert other snapshots that were deleted by CASCADE
             // This preserves multiple snapshots when rolling back to one of them.
             for (snap_name, table_name, row_key, row_data, created_at) in &other_snapshots {
+                #[cfg(feature = "verif-hooks")]
+                crate::verif_hooks::tick("restore");
                 conn.execute(
                     "INSERT INTO group_state_snapshots (snapshot_name, group_id, table_name, row_key, row_data, created_at)
                      VALUES (?, ?, ?, ?, ?, ?)",
@@ -1142,6 +1200,8 @@ impl MdkSqliteStorage {
 
         match result {
             Ok(()) => {
+                #[cfg(feature = "verif-hooks")]
+                crate::verif_hooks::tick("restore");
                 conn.execute("COMMIT", [])
                     .map_err(|e| Error::Database(e.to_string()))?;
                 Ok(())
